@@ -827,3 +827,277 @@ Example c20_end_to_end_nonvacuous :
   contains (cite [114] 3 2) out = true /\ contains (cite [114] 0 0) out = true /\ contains (cite [115] 7 1) out = true /\
   contains (cite [115] 3 2) out = false.
 Proof. vm_compute. repeat split. Qed.
+
+
+(* ================================================================================================================
+   THE STANDARD LIBRARY.  The hypothesis `call_errors_base call` of the theorems above holds of the model of the
+   standard function library (`stdlib_call rxo t` of Model/Stdlib.v, for every regex oracle rxo, on the tree t the
+   program runs on): Proofs/StdlibHyps.v, from C13 error_classes.  Below: each theorem above that carries the
+   hypothesis, instantiated — the same statement with `call := stdlib_call rxo t` and no hypothesis on functions. *)
+From TSG Require Import Model.Stdlib Proofs.StdlibHyps.
+
+Theorem stdlib_errors_base : forall rxo t, call_errors_base (stdlib_call rxo t).
+Proof. exact stdlib_call_errors_base. Qed.
+
+Theorem strict_error_ctx_stdlib : forall {rx : Type} rxo t fl cfg glob (regexes : list rx) find fuel st m s p e n rest,
+  nodes_for_capture m (st_full_stanza_idx st) = n :: rest ->
+  exec_stanza t fl cfg glob regexes find (stdlib_call rxo t) fuel st m s p = Err e ->
+  (exists l, e = ECancelled l) \/ in_stmt_ctx (st_start st) n e.
+Proof.
+  intros rx rxo t fl cfg glob regexes find fuel st m s p e n rest.
+  exact (@strict_error_ctx rx t fl cfg glob regexes find (stdlib_call rxo t) fuel st m s p e n rest (stdlib_call_errors_base rxo t)).
+Qed.
+
+Theorem strict_file_error_ctx_stdlib : forall {rx : Type} rxo t fl cfg glob (regexes : list rx) find fuel sts ms s p e,
+  exec_file t fl cfg glob regexes find (stdlib_call rxo t) fuel sts ms s p = Err e ->
+  (exists l, e = ECancelled l) \/
+  exists st m, In (st, m) (blocks sts ms) /\
+    match nodes_for_capture m (st_full_stanza_idx st) with
+    | n :: _ => in_stmt_ctx (st_start st) n e
+    | [] => False
+    end.
+Proof.
+  intros rx rxo t fl cfg glob regexes find fuel sts ms s p e.
+  exact (@strict_file_error_ctx rx t fl cfg glob regexes find (stdlib_call rxo t) fuel sts ms s p e (stdlib_call_errors_base rxo t)).
+Qed.
+
+Theorem strict_error_stmt_loc_stdlib : forall {rx : Type} rxo t fl cfg glob (regexes : list rx) find fuel st m s p e n rest,
+  nodes_for_capture m (st_full_stanza_idx st) = n :: rest ->
+  exec_stanza t fl cfg glob regexes find (stdlib_call rxo t) fuel st m s p = Err e ->
+  (exists l, e = ECancelled l) \/
+  exists s' e0 e1,
+    stmt_in st s' /\
+    e = EInContext (CtxStmts [{| sc_stmt := stmt_loc s'; sc_stanza := st_start st; sc_node := n |}]) e0 /\
+    (e0 = e1 \/ e0 = EInContext CtxOther e1) /\
+    (exists fuel' le s0 p0,
+        exec_stmt t fl cfg glob regexes find (stdlib_call rxo t) fuel' le s' s0 p0 = Err e1 /\ unwrapped e1 /\
+        le_ctx le = {| sc_stmt := stmt_loc s'; sc_stanza := st_start st; sc_node := n |} /\ le_match le = m).
+Proof.
+  intros rx rxo t fl cfg glob regexes find fuel st m s p e n rest.
+  exact (@strict_error_stmt_loc rx t fl cfg glob regexes find (stdlib_call rxo t) fuel st m s p e n rest (stdlib_call_errors_base rxo t)).
+Qed.
+
+Theorem strict_nested_error_not_plain_stdlib : forall {rx : Type} rxo t fl cfg glob (regexes : list rx) find fuel le wrap body s p e,
+  (wrap = (fun c => c) \/ wrap = ctx_wrap CtxOther) ->
+  iterM (fun st => let c := ctx_update (le_ctx le) st in
+                   ctx_wrap (CtxStmts [c]) (wrap (exec_stmt t fl cfg glob regexes find (stdlib_call rxo t) fuel (le_with_ctx le c) st))) body s p = Err e ->
+  ~ unwrapped e.
+Proof.
+  intros rx rxo t fl cfg glob regexes find fuel le wrap body s p e.
+  exact (@strict_nested_error_not_plain rx t fl cfg glob regexes find (stdlib_call rxo t) fuel le wrap body s p e (stdlib_call_errors_base rxo t)).
+Qed.
+
+Theorem strict_file_error_stmt_loc_stdlib : forall {rx : Type} rxo t fl cfg glob (regexes : list rx) find fuel sts ms s p e,
+  exec_file t fl cfg glob regexes find (stdlib_call rxo t) fuel sts ms s p = Err e ->
+  (exists l, e = ECancelled l) \/
+  exists st m, In (st, m) (blocks sts ms) /\
+    match nodes_for_capture m (st_full_stanza_idx st) with
+    | n :: _ =>
+        exists s' e0 e1,
+          stmt_in st s' /\
+          e = EInContext (CtxStmts [{| sc_stmt := stmt_loc s'; sc_stanza := st_start st; sc_node := n |}]) e0 /\
+          (e0 = e1 \/ e0 = EInContext CtxOther e1) /\
+          fails_directly t fl cfg glob regexes find (stdlib_call rxo t) (st_start st) n m s' e1
+    | [] => False
+    end.
+Proof.
+  intros rx rxo t fl cfg glob regexes find fuel sts ms s p e.
+  exact (@strict_file_error_stmt_loc rx t fl cfg glob regexes find (stdlib_call rxo t) fuel sts ms s p e (stdlib_call_errors_base rxo t)).
+Qed.
+
+Theorem lazy_error_ctx_shape_stdlib : forall {rx : Type} rxo t fl cfg glob (regexes : list rx) find fuel ms s p e,
+  lexec_file t fl cfg glob regexes find (stdlib_call rxo t) fuel ms s p = Err e ->
+  (exists l, e = ECancelled l) \/ unwrapped e \/
+  exists cs e0, e = EInContext (CtxStmts cs) e0 /\ (length cs = 1 \/ length cs = 2)%nat.
+Proof.
+  intros rx rxo t fl cfg glob regexes find fuel ms s p e.
+  exact (@lazy_error_ctx_shape rx t fl cfg glob regexes find (stdlib_call rxo t) fuel ms s p e (stdlib_call_errors_base rxo t)).
+Qed.
+
+Theorem lazy_error_ctx_valid_stdlib : forall {rx : Type} rxo t fl cfg glob (regexes : list rx) find fuel ms g0 p e,
+  lexec_file t fl cfg glob regexes find (stdlib_call rxo t) fuel ms (linit g0) p = Err e ->
+  (exists l, e = ECancelled l) \/
+  exists cs e0, e = EInContext (CtxStmts cs) e0 /\ unwrapped e0 /\ (length cs = 1 \/ length cs = 2)%nat /\ Forall (valid_ctx fl ms) cs.
+Proof.
+  intros rx rxo t fl cfg glob regexes find fuel ms g0 p e.
+  exact (@lazy_error_ctx_valid rx t fl cfg glob regexes find (stdlib_call rxo t) fuel ms g0 p e (stdlib_call_errors_base rxo t)).
+Qed.
+
+Theorem lazy_run_error_ctx_valid_stdlib : forall {rx : Type} rxo t fl cfg supplied budget (regexes : list rx) find fuel ms g0 e,
+  run_lazy t fl cfg supplied budget regexes find (stdlib_call rxo t) fuel ms g0 = Err e ->
+  check_globals (f_globals fl) (globals_nested supplied) = Err e \/
+  (exists l, e = ECancelled l) \/
+  exists cs e0, e = EInContext (CtxStmts cs) e0 /\ unwrapped e0 /\ (length cs = 1 \/ length cs = 2)%nat /\ Forall (valid_ctx fl ms) cs.
+Proof.
+  intros rx rxo t fl cfg supplied budget regexes find fuel ms g0 e.
+  exact (@lazy_run_error_ctx_valid rx t fl cfg supplied budget regexes find (stdlib_call rxo t) fuel ms g0 e (stdlib_call_errors_base rxo t)).
+Qed.
+
+Theorem lazy_ctx_invariant_stdlib : forall {rx : Type} rxo t fl cfg glob (regexes : list rx) find fuel ms s p,
+  lazy_ctx_inv fl ms s ->
+  match lexec_file t fl cfg glob regexes find (stdlib_call rxo t) fuel ms s p with
+  | Ok (_, s', _) => lazy_ctx_inv fl ms s'
+  | Err e => (exists l, e = ECancelled l) \/
+             exists cs e0, e = EInContext (CtxStmts cs) e0 /\ unwrapped e0 /\ (length cs = 1 \/ length cs = 2)%nat /\ Forall (valid_ctx fl ms) cs
+  | _ => True
+  end.
+Proof.
+  intros rx rxo t fl cfg glob regexes find fuel ms s p.
+  exact (@lazy_ctx_invariant rx t fl cfg glob regexes find (stdlib_call rxo t) fuel ms s p (stdlib_call_errors_base rxo t)).
+Qed.
+
+Theorem lazy_deferred_error_cites_own_statement_stdlib : forall rxo t fl fuel st s p e,
+  eval_lstmt t fl (stdlib_call rxo t) fuel st s p = Err e ->
+  (exists l, e = ECancelled l) \/
+  (exists e1, e = EInContext (CtxStmts [ls_dbg st]) e1 /\ unwrapped e1) \/
+  (exists k prev, e = EInContext (CtxStmts [prev; ls_dbg st]) EDuplicateAttribute /\ key_sets st k /\
+                  (In (k, prev) (l_prev s) \/ prev = ls_dbg st)) \/
+  origin t fl (stdlib_call rxo t) s e.
+Proof.
+  intros rxo t fl fuel st s p e.
+  exact (@lazy_deferred_error_cites_own_statement t fl (stdlib_call rxo t) fuel st s p e (stdlib_call_errors_base rxo t)).
+Qed.
+
+Theorem lazy_eval_phase_error_cites_deferred_stdlib : forall rxo t fl fuel s p e,
+  evaluate_phase t fl (stdlib_call rxo t) fuel s p = Err e ->
+  (exists l, e = ECancelled l) \/ unwrapped e \/
+  cites_deferred (l_prev s) (l_edges s ++ l_attrs s ++ l_prints s) e \/
+  origin t fl (stdlib_call rxo t) s e.
+Proof.
+  intros rxo t fl fuel s p e.
+  exact (@lazy_eval_phase_error_cites_deferred t fl (stdlib_call rxo t) fuel s p e (stdlib_call_errors_base rxo t)).
+Qed.
+
+Theorem lazy_thunk_error_cites_creator_stdlib : forall rxo t fl fuel loc s p e,
+  force_thunk t fl (stdlib_call rxo t) fuel loc s p = Err e ->
+  exists fuel' th, fuel = S fuel' /\ nth_error (l_store s) (N.to_nat loc) = Some th /\
+    ((exists l, e = ECancelled l) \/
+     (exists e1, e = EInContext (CtxStmts [th_dbg th]) e1 /\ unwrapped e1 /\ thunk_body t fl (stdlib_call rxo t) fuel' loc th s p = Err e1) \/
+     (thunk_body t fl (stdlib_call rxo t) fuel' loc th s p = Err e /\ origin t fl (stdlib_call rxo t) s e)).
+Proof.
+  intros rxo t fl fuel loc s p e.
+  exact (@lazy_thunk_error_cites_creator t fl (stdlib_call rxo t) fuel loc s p e (stdlib_call_errors_base rxo t)).
+Qed.
+
+Theorem lazy_value_error_cites_creator_stdlib : forall rxo t fl fuel lv s p e,
+  eval_lv t fl (stdlib_call rxo t) fuel lv s p = Err e ->
+  (exists l, e = ECancelled l) \/ unwrapped e \/ origin t fl (stdlib_call rxo t) s e.
+Proof.
+  intros rxo t fl fuel lv s p e.
+  exact (@lazy_value_error_cites_creator t fl (stdlib_call rxo t) fuel lv s p e (stdlib_call_errors_base rxo t)).
+Qed.
+
+Theorem lazy_thunk_error_not_plain_stdlib : forall rxo t fl fuel loc s p e,
+  force_thunk t fl (stdlib_call rxo t) fuel loc s p = Err e -> ~ unwrapped e.
+Proof.
+  intros rxo t fl fuel loc s p e.
+  exact (@lazy_thunk_error_not_plain t fl (stdlib_call rxo t) fuel loc s p e (stdlib_call_errors_base rxo t)).
+Qed.
+
+Theorem lazy_stmt_error_cites_statement_stdlib : forall {rx : Type} rxo t fl cfg glob (regexes : list rx) find z n m fuel le s s0 p0 e,
+  env_zn z n m le ->
+  lexec_stmt t fl cfg glob regexes find (stdlib_call rxo t) fuel le s s0 p0 = Err e ->
+  (exists l, e = ECancelled l) \/ unwrapped e \/ forced t fl (stdlib_call rxo t) e \/
+  arm_cited t fl cfg glob regexes find (stdlib_call rxo t) z n m (arm_stmts s) e.
+Proof.
+  intros rx rxo t fl cfg glob regexes find z n m fuel le s s0 p0 e.
+  exact (@lazy_stmt_error_cites_statement rx t fl cfg glob regexes find (stdlib_call rxo t) z n m fuel le s s0 p0 e (stdlib_call_errors_base rxo t)).
+Qed.
+
+Theorem lazy_exec_error_cites_statement_stdlib : forall {rx : Type} rxo t fl cfg glob (regexes : list rx) find fuel st m s p e n rest,
+  nodes_for_capture m (st_full_file_idx st) = n :: rest ->
+  lexec_stanza t fl cfg glob regexes find (stdlib_call rxo t) fuel st m s p = Err e ->
+  (exists l, e = ECancelled l) \/ forced t fl (stdlib_call rxo t) e \/
+  top_cited t fl cfg glob regexes find (stdlib_call rxo t) (st_start st) n m (st_stmts st) e \/
+  arm_cited t fl cfg glob regexes find (stdlib_call rxo t) (st_start st) n m (flat_map arm_stmts (st_stmts st)) e.
+Proof.
+  intros rx rxo t fl cfg glob regexes find fuel st m s p e n rest.
+  exact (@lazy_exec_error_cites_statement rx t fl cfg glob regexes find (stdlib_call rxo t) fuel st m s p e n rest (stdlib_call_errors_base rxo t)).
+Qed.
+
+Theorem lazy_run_error_cites_stdlib : forall {rx : Type} rxo t fl cfg glob (regexes : list rx) find fuel ms g0 p e,
+  lexec_file t fl cfg glob regexes find (stdlib_call rxo t) fuel ms (linit g0) p = Err e ->
+  (exists l, e = ECancelled l) \/ forced t fl (stdlib_call rxo t) e \/
+  cites_executed t fl cfg glob regexes find (stdlib_call rxo t) ms e \/
+  exists s1 p1, lexec_blocks t fl cfg glob regexes find (stdlib_call rxo t) fuel ms (linit g0) p = Ok (tt, s1, p1) /\
+                cites_deferred [] (l_edges s1 ++ l_attrs s1 ++ l_prints s1) e.
+Proof.
+  intros rx rxo t fl cfg glob regexes find fuel ms g0 p e.
+  exact (@lazy_run_error_cites rx t fl cfg glob regexes find (stdlib_call rxo t) fuel ms g0 p e (stdlib_call_errors_base rxo t)).
+Qed.
+
+Theorem lazy_created_values_cite_statement_stdlib : forall {rx : Type} rxo t fl cfg glob (regexes : list rx) find fuel le s s0 p0 s1 p1 d,
+  lexec_stmt t fl cfg glob regexes find (stdlib_call rxo t) fuel le s s0 p0 = Ok (tt, s1, p1) ->
+  ctx_stored s1 d ->
+  ctx_stored s0 d \/ d = ll_ctx le \/ exists s', In s' (stmt_subs s) /\ d = ctx_update (ll_ctx le) s'.
+Proof.
+  intros rx rxo t fl cfg glob regexes find fuel le s s0 p0 s1 p1 d.
+  exact (@lazy_created_values_cite_statement rx t fl cfg glob regexes find (stdlib_call rxo t) fuel le s s0 p0 s1 p1 d (stdlib_call_errors_base rxo t)).
+Qed.
+
+Theorem strict_error_rendering_cites_stdlib : forall {rx : Type} rxo t fl cfg glob (regexes : list rx) find fuel sts ms s p e
+    stmt_text cause_text node_kind node_pos other_msg w tsg_path tsg src_path src,
+  exec_file t fl cfg glob regexes find (stdlib_call rxo t) fuel sts ms s p = Err e ->
+  (exists l, e = ECancelled l) \/
+  exists st m, In (st, m) (blocks sts ms) /\
+    match nodes_for_capture m (st_full_stanza_idx st) with
+    | n :: _ =>
+        exists s', stmt_in st s' /\
+          cites3 tsg_path src_path
+                 (render_pretty w tsg_path tsg src_path src (chain_of_error stmt_text cause_text node_kind node_pos other_msg e))
+                 (stmt_loc s') (st_start st) (node_pos n)
+    | [] => False
+    end.
+Proof.
+  intros rx rxo t fl cfg glob regexes find fuel sts ms s p e stmt_text cause_text node_kind node_pos other_msg w tsg_path tsg src_path src.
+  exact (@strict_error_rendering_cites rx t fl cfg glob regexes find (stdlib_call rxo t) fuel sts ms s p e stmt_text cause_text node_kind node_pos other_msg w tsg_path tsg src_path src (stdlib_call_errors_base rxo t)).
+Qed.
+
+Theorem strict_error_rendering_shows_lines_stdlib : forall {rx : Type} rxo t fl cfg glob (regexes : list rx) find fuel sts ms s p e
+    stmt_text cause_text node_kind node_pos other_msg w tsg_path tsg src_path src,
+  exec_file t fl cfg glob regexes find (stdlib_call rxo t) fuel sts ms s p = Err e ->
+  (exists l, e = ECancelled l) \/
+  exists st m, In (st, m) (blocks sts ms) /\
+    match nodes_for_capture m (st_full_stanza_idx st) with
+    | n :: _ =>
+        exists s', stmt_in st s' /\
+          shows3 tsg src
+                 (render_pretty w tsg_path tsg src_path src (chain_of_error stmt_text cause_text node_kind node_pos other_msg e))
+                 (stmt_loc s') (st_start st) (node_pos n)
+    | [] => False
+    end.
+Proof.
+  intros rx rxo t fl cfg glob regexes find fuel sts ms s p e stmt_text cause_text node_kind node_pos other_msg w tsg_path tsg src_path src.
+  exact (@strict_error_rendering_shows_lines rx t fl cfg glob regexes find (stdlib_call rxo t) fuel sts ms s p e stmt_text cause_text node_kind node_pos other_msg w tsg_path tsg src_path src (stdlib_call_errors_base rxo t)).
+Qed.
+
+Theorem lazy_error_rendering_cites_stdlib : forall {rx : Type} rxo t fl cfg supplied budget (regexes : list rx) find fuel ms g0 e
+    stmt_text cause_text node_kind node_pos other_msg w tsg_path tsg src_path src,
+  run_lazy t fl cfg supplied budget regexes find (stdlib_call rxo t) fuel ms g0 = Err e ->
+  check_globals (f_globals fl) (globals_nested supplied) = Err e \/
+  (exists l, e = ECancelled l) \/
+  exists cs e0, e = EInContext (CtxStmts cs) e0 /\ (length cs = 1 \/ length cs = 2)%nat /\
+    Forall (fun c => valid_ctx fl ms c /\
+                     cites3 tsg_path src_path
+                            (render_pretty w tsg_path tsg src_path src (chain_of_error stmt_text cause_text node_kind node_pos other_msg e))
+                            (sc_stmt c) (sc_stanza c) (node_pos (sc_node c))) cs.
+Proof.
+  intros rx rxo t fl cfg supplied budget regexes find fuel ms g0 e stmt_text cause_text node_kind node_pos other_msg w tsg_path tsg src_path src.
+  exact (@lazy_error_rendering_cites rx t fl cfg supplied budget regexes find (stdlib_call rxo t) fuel ms g0 e stmt_text cause_text node_kind node_pos other_msg w tsg_path tsg src_path src (stdlib_call_errors_base rxo t)).
+Qed.
+
+Theorem lazy_error_rendering_shows_lines_stdlib : forall {rx : Type} rxo t fl cfg supplied budget (regexes : list rx) find fuel ms g0 e
+    stmt_text cause_text node_kind node_pos other_msg w tsg_path tsg src_path src,
+  run_lazy t fl cfg supplied budget regexes find (stdlib_call rxo t) fuel ms g0 = Err e ->
+  check_globals (f_globals fl) (globals_nested supplied) = Err e \/
+  (exists l, e = ECancelled l) \/
+  exists cs e0, e = EInContext (CtxStmts cs) e0 /\ (length cs = 1 \/ length cs = 2)%nat /\
+    Forall (fun c => valid_ctx fl ms c /\
+                     shows3 tsg src
+                            (render_pretty w tsg_path tsg src_path src (chain_of_error stmt_text cause_text node_kind node_pos other_msg e))
+                            (sc_stmt c) (sc_stanza c) (node_pos (sc_node c))) cs.
+Proof.
+  intros rx rxo t fl cfg supplied budget regexes find fuel ms g0 e stmt_text cause_text node_kind node_pos other_msg w tsg_path tsg src_path src.
+  exact (@lazy_error_rendering_shows_lines rx t fl cfg supplied budget regexes find (stdlib_call rxo t) fuel ms g0 e stmt_text cause_text node_kind node_pos other_msg w tsg_path tsg src_path src (stdlib_call_errors_base rxo t)).
+Qed.
+
